@@ -539,3 +539,21 @@ func (c *Ctx) FileOf(n ast.Node) string {
 	}
 	return s
 }
+
+// paramOrResult: the root identifier of e is a named result of f (e.g. `ret.Value.err` in a
+// function declared with `(ret T, err error)`).
+func (f *Fn) paramOrResult(e ast.Expr) bool {
+	id := rootIdent(e)
+	if id == nil || f.Type == nil || f.Type.Results == nil {
+		return false
+	}
+	o := f.Info.ObjectOf(id)
+	for _, fld := range f.Type.Results.List {
+		for _, nm := range fld.Names {
+			if f.Info.Defs[nm] == o {
+				return true
+			}
+		}
+	}
+	return false
+}
